@@ -135,7 +135,7 @@ Fixpoint pv_list_range (vs : list rawversion) : option range :=
 Fixpoint version_list_range (vs : list rawversion) : range :=
   match vs with
   | [] => r_empty
-  | v :: vs' => r_union (r_singleton (norm_version v)) (version_list_range vs')
+  | v :: vs' => r_union (r_singleton (final_version (fst (snd v)))) (version_list_range vs')   (* release segments only *)
   end.
 
 Definition string_range (op : sop) (s : str) : range :=
